@@ -604,11 +604,15 @@ Proof.
       * rewrite Hidx'. apply FinFun.Injective_map_NoDup; [intros i j E; lia|apply seq_NoDup].
       * intros s H1 H2. apply in_map_iff in H1. destruct H1 as (m1 & <- & Hm1). apply in_map_iff in H2. destruct H2 as (m2 & E2 & Hm2).
         destruct (Hmv m1 Hm1) as (_ & _ & a1 & _ & _ & S1 & _). pose proof (slot_is_range _ _ _ S1). pose proof (Hge m2 Hm2). lia.
-    + apply Forall_forall. intros m Hm. destruct (Hmv m Hm) as (_ & _ & asrc & _ & _ & Ssrc & Ksrc & Lsrc & Zsrc & _).
+    + apply Forall_forall. intros m Hm. destruct (Hmv m Hm) as (_ & _ & asrc & _ & _ & Ssrc & Ksrc & Lsrc & Zsrc & Bsrc & Osrc & _).
+      assert (Tsrc : a_temp asrc = false).
+      { destruct (tmp_region_exists st ms0 p0 ix cs new m HW eq_refl HC Hm) as (_ & _ & es & _ & _ & E1 & E2 & _).
+        destruct (entry_project _ _ _ _ _ _ E1) as (a' & Sa' & _ & _ & ->). cbn [Defrag.u_temp] in E2.
+        assert (a' = asrc) by (unfold src_of in Ssrc; destruct Sa', Ssrc; congruence). subst a'. exact E2. }
       destruct (Htmp m Hm) as (b1 & a & Hb1 & Hi1 & Ea & Sa). exists asrc, a.
       split.
       { split; [|apply Ssrc]. rewrite Htab, nth_z_app_old by (apply (slot_is_range _ _ _ Ssrc)). apply Ssrc. }
-      split; [exact Sa|]. rewrite Ea. unfold mk_tmp. rewrite (Hsrc1 m asrc Hm Ssrc). cbn [a_kind a_lref a_size a_align]. auto 10.
+      split; [exact Sa|]. rewrite Ea. unfold mk_tmp. rewrite (Hsrc1 m asrc Hm Ssrc). cbn [a_kind a_lref a_size a_align a_blk a_handle a_temp]. auto 15.
 Qed.
 
 (* ---------------------------------------------------------------- BlockListCollectMoves of one context *)
